@@ -70,7 +70,7 @@ DYADIC_BETAS = [0.0, 0.125, 0.25, 0.375, 0.5, 0.625, 0.75, 0.875]
 
 
 def gen_case(rng, cid, families=None, kinds=('mh', 'pt'), allow_saveload=True,
-             allow_reset=False, max_ops=8, allow_slow=True, ntemps_choices=(2, 3, 4),
+             allow_reset=False, max_ops=8, allow_slow=True, ntemps_choices=(2, 3, 4, 1, 3),
              allow_dynamic=False, max_run=6, window_choices=None, allow_loadinto=False):
     c = Case(cid)
     c.kind = rng.choice(kinds)
